@@ -9,7 +9,9 @@ WSB = [b" ", b"\n", b"\t", b"\r", b"\r\n", b"  "]
 # bytes that cannot start a JSON value and are not whitespace
 NOSTART = [b for b in range(256) if b not in b" \n\t\r" and b not in b'ntf"-[{0123456789']
 FAVOUR = list(b'}],:.eE+') + [0x0c, 0x0b, 0x00, 0x7f, 0x80, 0xbf, 0xc3, 0xe2, 0xf0, 0xff, 0xfe, 0x61, 0x5c, 0x27]
-PIPELINES = {"plain": [], "select": ["--select=. =v"], "sort": ["--sort-by=."], "group": ["--merge"]}
+PIPELINES = {"plain": [], "select": ["--select=. =v"], "sort": ["--sort-by=."], "group": ["--merge"],
+             "text": ["--output-style=text", "--headers", "--select=. =v", "--select=(size .)=s"], "csv": ["--output-style=csv", "--select=. =v"]}
+HEADER_LINES = {"text": 1, "csv": 1}
 
 
 def garbage(r):
@@ -84,9 +86,13 @@ def check(tier, seed, replay=None):
         chk.notes["model_behaviours_replayed"] = len(recipes)
         n = 300 if quick else 50000
         for i in range(n):
-            pipeline = rnd.choice(["plain", "plain", "select", "sort", "group"])
+            pipeline = rnd.choice(["plain", "plain", "select", "sort", "group", "text", "csv"])
             nv = rnd.choice([0, 1, 2, 3, 5, 8])
-            if pipeline == "sort":
+            if pipeline in HEADER_LINES:
+                # the other sink (text / csv printer): scalars that print on one line
+                vals = [rnd.choice([G.rand_number(rnd, True), ("str", [rnd.choice(b"abc xyz,;'") for _ in range(rnd.choice([0, 1, 3, 6]))]), ("null",), ("bool", False)])
+                        for _ in range(nv)]
+            elif pipeline == "sort":
                 vals = [rnd.choice([G.rand_number(rnd, True), G.rand_string(rnd, ascii_only=True), ("null",), ("bool", True), ("arr", [G.rand_number(rnd, True)])])
                         for _ in range(nv)]
             else:
@@ -95,7 +101,7 @@ def check(tier, seed, replay=None):
             policy = rnd.choice(["ignore", "stdout", "stderr", "panic"])
             argv = PIPELINES[pipeline] + ["--on-error=" + policy]
             recipes.append({"kind": "noise", "policy": policy, "pipeline": pipeline, "regions": regions, "before": before, "vals": [enc(v) for v in vals],
-                            "runs": [{"argv": argv, "stdin": hexs(noisy)}, {"argv": argv, "stdin": hexs(clean)}]})
+                            "hdr": HEADER_LINES.get(pipeline, 0), "runs": [{"argv": argv, "stdin": hexs(noisy)}, {"argv": argv, "stdin": hexs(clean)}]})
         # the same garbage, any bytes: lexer agreement (drift only)
         for i in range(100 if quick else 5000):
             data = bytes(rnd.choice(b' \n"\\u01-.eE+[]{},:trnfa\xc3\x80\xf0') for _ in range(rnd.choice([1, 2, 3, 5, 8, 13, 21])))
@@ -115,7 +121,7 @@ def check(tier, seed, replay=None):
         rec = {"case": ri, "kind": rc["kind"], "in": list(bytes.fromhex(rc["runs"][0]["stdin"])), "out": list(bytes.fromhex(o[0]["out"])),
                "err": list(bytes.fromhex(o[0]["err"])), "res": o[0]["res"]}
         if rc["kind"] == "noise":
-            rec.update({"policy": rc["policy"], "pipeline": rc["pipeline"], "regions": rc["regions"], "before": rc["before"], "vals": rc["vals"],
+            rec.update({"policy": rc["policy"], "pipeline": rc["pipeline"], "regions": rc["regions"], "before": rc["before"], "vals": rc["vals"], "hdr": rc.get("hdr", 0),
                         "base": list(bytes.fromhex(o[1]["out"])), "bres": o[1]["res"] if not o[1]["err"] else "stderr-not-empty"})
         recs.append(rec)
     flags, _ = run_trace_spec("Trace_C06", recs, "c06", nproc=2 if quick else 12)
